@@ -101,3 +101,79 @@ package domain
 //@              ((err != nil) == ((startPosition > endPosition && (startPosition != endPosition+1 || *startOffset != 0 || *endOffset != 0)) || (startPosition == endPosition && *startOffset+*endOffset > telem.Size(idx.mu.pointers[startPosition].size))))
 //@   ensures  err != nil ==> !ok
 //@   modifies startOffset, endOffset
+
+//@ # ---------------------------------------------------------------- index lookups used by iterators (C01/C10)
+//@ inline func (idx *index) read(f func())
+//@ spec func containsTS(p pointer, ts telem.TimeStamp) bool = p.Start <= ts && ts < p.End
+
+//@ # last domain starting at or before ts (-1 if none); it is the one containing ts if any does
+//@ func (idx *index) searchLE(ctx context.Context, ts telem.TimeStamp) (i int)
+//@   requires WF(idx.mu.pointers) && ts >= 0
+//@   ensures  -1 <= i && i < len(idx.mu.pointers)
+//@   ensures  forall k int :: 0 <= k && k <= i ==> idx.mu.pointers[k].Start <= ts
+//@   ensures  forall k int :: i < k && k < len(idx.mu.pointers) ==> ts < idx.mu.pointers[k].Start
+//@   modifies nothing
+//@ # the domain containing ts, else the first domain starting after ts (len if none)
+//@ func (idx *index) searchGE(ctx context.Context, ts telem.TimeStamp) (i int)
+//@   requires WF(idx.mu.pointers) && ts >= 0
+//@   ensures  0 <= i && i <= len(idx.mu.pointers)
+//@   ensures  forall k int :: 0 <= k && k < i ==> idx.mu.pointers[k].End <= ts
+//@   ensures  i < len(idx.mu.pointers) ==> ts < idx.mu.pointers[i].End
+//@   modifies nothing
+//@ func (idx *index) get(i int) (p pointer, ok bool)
+//@   ensures ok == (0 <= i && i < len(idx.mu.pointers))
+//@   ensures ok ==> p == idx.mu.pointers[i]
+//@   modifies nothing
+//@ func (idx *index) getGE(ctx context.Context, ts telem.TimeStamp) (ptr pointer, ok bool)
+//@   requires WF(idx.mu.pointers) && ts >= 0
+//@   ensures  ok ==> (exists i int :: 0 <= i && i < len(idx.mu.pointers) && ptr == idx.mu.pointers[i] && ts < ptr.End && (forall k int :: 0 <= k && k < i ==> idx.mu.pointers[k].End <= ts))
+//@   ensures  !ok ==> (forall k int :: 0 <= k && k < len(idx.mu.pointers) ==> idx.mu.pointers[k].End <= ts)
+//@   modifies nothing
+//@ func (idx *index) overlap(tr telem.TimeRange) (res bool)
+//@   requires WF(idx.mu.pointers) && validTR(tr)
+//@   ensures  res == (exists i int :: 0 <= i && i < len(idx.mu.pointers) && telem.SpecOvl(idx.mu.pointers[i].TimeRange, tr))
+//@   modifies nothing
+
+//@ # ---------------------------------------------------------------- domain iterator
+//@ pure func (i *Iterator) TimeRange() telem.TimeRange
+//@ pure func (i *Iterator) Valid() bool
+//@ # exported views of the iterator for contracts in other packages
+//@ spec func SpecIterPos(i *Iterator) int = i.position
+//@ spec func SpecIterValid(i *Iterator) bool = i.valid
+//@ spec func SpecIterLen(i *Iterator) int = len(i.idx.mu.pointers)
+//@ spec func SpecIterDomainAt(i *Iterator, k int) telem.TimeRange = i.idx.mu.pointers[k].TimeRange
+//@ spec func SpecIterWF(i *Iterator) bool = i.idx != nil && WF(i.idx.mu.pointers) && validTR(i.Bounds)
+//@ # a valid iterator sits on a domain of the index that overlaps its bounds
+//@ spec func SpecIterOK(i *Iterator) bool = i.valid ==> 0 <= i.position && i.position < len(i.idx.mu.pointers) && i.currPtr == i.idx.mu.pointers[i.position] && telem.SpecOvl(i.currPtr.TimeRange, i.Bounds)
+
+//@ func (i *Iterator) reload() (ok bool)
+//@   requires SpecIterWF(i) && -1 <= i.position
+//@   ensures  ok == i.valid && (ok ==> old(i.valid)) && SpecIterOK(i)
+//@   ensures  ok ==> 0 <= i.position && i.position < len(i.idx.mu.pointers) && i.currPtr == i.idx.mu.pointers[i.position]
+//@   ensures  !ok ==> i.currPtr == old(i.currPtr)
+//@   ensures  !ok && old(i.valid) ==> i.position == -1 || i.position >= len(i.idx.mu.pointers) || !telem.SpecOvl(i.idx.mu.pointers[i.position].TimeRange, i.Bounds)
+//@   modifies &i.valid, &i.currPtr
+//@ # Next moves to the following domain if it exists and overlaps the bounds, otherwise stays where it was (and becomes invalid)
+//@ func (i *Iterator) Next() (ok bool)
+//@   requires SpecIterWF(i) && SpecIterOK(i) && i.position < 4611686018427387904
+//@   ensures  SpecIterOK(i) && ok == i.valid
+//@   ensures  ok ==> i.position == old(i.position)+1
+//@   ensures  !ok ==> i.position == old(i.position) && i.currPtr == old(i.currPtr)
+//@   ensures  !ok && old(i.valid) ==> old(i.position)+1 >= len(i.idx.mu.pointers) || !telem.SpecOvl(i.idx.mu.pointers[old(i.position)+1].TimeRange, i.Bounds)
+//@   modifies &i.valid, &i.currPtr, &i.position
+//@ func (i *Iterator) Prev() (ok bool)
+//@   requires SpecIterWF(i) && SpecIterOK(i)
+//@   ensures  SpecIterOK(i) && ok == i.valid
+//@   ensures  ok ==> i.position == old(i.position)-1
+//@   ensures  !ok ==> i.currPtr == old(i.currPtr)
+//@   modifies &i.valid, &i.currPtr, &i.position
+//@ func (i *Iterator) SeekLE(ctx context.Context, stamp telem.TimeStamp) (ok bool)
+//@   requires SpecIterWF(i) && stamp >= 0
+//@   ensures  SpecIterOK(i) && ok == i.valid
+//@   ensures  ok ==> i.currPtr.Start <= stamp && (forall k int :: i.position < k && k < len(i.idx.mu.pointers) ==> stamp < i.idx.mu.pointers[k].Start)
+//@   modifies &i.valid, &i.currPtr, &i.position
+//@ func (i *Iterator) SeekGE(ctx context.Context, stamp telem.TimeStamp) (ok bool)
+//@   requires SpecIterWF(i) && stamp >= 0
+//@   ensures  SpecIterOK(i) && ok == i.valid
+//@   ensures  ok ==> stamp < i.currPtr.End && (forall k int :: 0 <= k && k < i.position ==> i.idx.mu.pointers[k].End <= stamp)
+//@   modifies &i.valid, &i.currPtr, &i.position
